@@ -14,6 +14,9 @@ lines (TAB separated):
   C11 reenc <name> <mode> <start> <count>      -> ok <item,...>                    decode each code, encode the value again
   C11 sweep <name> <mode> <start>              -> ok <item,...> (all 65 536)       every half-precision input; the model sees the
                                                                                   256-entry block at <start>, the oracle sees all
+  C11 modeseq <name> <order> <f64>             -> ok <item,...>                    a history: the same value through the token-string
+                                                                                  route under the mxfp_overflow settings of <order>
+                                                                                  (s = saturate, o = overflow), caches NOT cleared between
   scale = i<decimal int> | f<f64 hex>;  item = code | !<ErrorClass>
 name in p3binary p4binary e5m2mxfp e4m3mxfp e3m2mxfp e2m3mxfp e2m1mxfp e8m0mxfp mxint bfloat bfloatle; mode in saturate overflow.
 """
@@ -432,6 +435,8 @@ def execute(line: str):
     f = line.split(SEP)
     op, name, mode = f[1], f[2], f[3]
     extra = {}
+    if op == "modeseq":
+        return exec_modeseq(name, f[3], hex2f(f[4]))
     with options(mxfp_overflow=mode):
         clear_caches()
         if op == "enc":
@@ -506,6 +511,81 @@ def execute(line: str):
     raise ValueError(line)
 
 
+MODE_OF = {"s": "saturate", "o": "overflow"}
+
+
+def _fromstring(cls, s):
+    return cls.fromstring(s)
+
+
+def _iadd(s):
+    a = BitArray("0x00")
+    a += s
+    return a[8:]
+
+
+def _append(s):
+    a = BitArray()
+    a.append(s)
+    return a
+
+
+def _prepend(s, n):
+    a = BitArray("0b1")
+    a.prepend(s)
+    return a[:n]
+
+
+def exec_modeseq(name, order, x):
+    """The same value under a sequence of mxfp_overflow settings.  Caches are cleared once, before the first step, so that
+    the line replays on its own; they are NOT cleared between the steps: what an earlier step left in any cache is there."""
+    n = NBITS[name]
+    tok = "%s=%r" % (name, x)
+    toklen = "%s%d=%r" % (name, n, x)
+    bc = bits_code(name)
+    o = bitstring.options
+    saved = o.mxfp_overflow
+    clear_caches()
+    steps, main = [], []
+    try:
+        for ch in order:
+            o.mxfp_overflow = MODE_OF[ch]
+            routes = {
+                "Bits(token)": lambda: Bits(tok),
+                "BitArray(token)": lambda: BitArray(tok),
+                "BitStream(token+length)": lambda: BitStream(toklen),
+                "Bits('0x00, token, 0b1')[8:-1]": lambda: Bits("0x00, " + tok + ", 0b1")[8:8 + n],
+                "Bits('token, token')[n:]": lambda: Bits(tok + ", " + tok)[n:],
+                "pack(token)": lambda: bitstring.pack(tok),
+                "pack('uint8=0, token')[8:]": lambda: bitstring.pack("uint8=0, " + tok)[8:],
+                "BitStream.fromstring(token)": lambda: _fromstring(BitStream, tok),
+                "BitArray.fromstring(token)": lambda: _fromstring(BitArray, tok),
+                "BitArray('0x00') += token": lambda: _iadd(tok),
+                "BitArray().append(token)": lambda: _append(tok),
+                "BitArray('0b1').prepend(token)": lambda: _prepend(tok, n),
+                "Bits() + token": lambda: Bits() + tok,
+                "token + Bits()  (radd)": lambda: tok + Bits(),
+                # controls: routes that do not go through the string cache
+                "keyword": lambda: Bits(**{name: x}),
+                "property": lambda: _setprop(name, x),
+                "Dtype.build": lambda: Dtype(name).build(x),
+                "pack(name, value)": lambda: bitstring.pack(name, x),
+                "Array": lambda: Array(name, [x]).data,
+            }
+            res = {k: item(v, bc) for k, v in routes.items()}
+            # a string operand of == is converted too: the freshly encoded value must equal its own token string
+            try:
+                kw = Bits(**{name: x})
+                res["keyword == token"] = "True" if (kw == tok) else "False"
+            except Exception as e:                                  # noqa: BLE001
+                res["keyword == token"] = "!" + err_name(e)
+            steps.append(res)
+            main.append(res["Bits(token)"])
+    finally:
+        o.mxfp_overflow = saved
+    return "ok " + ",".join(main), {"steps": steps}
+
+
 def model_line(line: str) -> str:
     f = line.split(SEP)
     if f[1] == "sweep":
@@ -547,6 +627,26 @@ def oracle(line: str, out: str, extra: dict):
         if out != exp:
             return f"code {f[4]} as {name}: expected {exp}, got {out}"
         return _routes_agree(out, extra, f"code {f[4]} as {name}")
+    if op == "modeseq":
+        order, x = f[3], hex2f(f[4])
+        if not out.startswith("ok "):
+            return f"modeseq: {out}"
+        items = out[3:].split(",")
+        if len(items) != len(order) or len(extra["steps"]) != len(order):
+            return f"modeseq: {len(items)} results for {len(order)} steps"
+        hist = []
+        for i, ch in enumerate(order):
+            m = MODE_OF[ch]
+            exp = exp_item(name, ref_encode(name, m, x))
+            hist.append(m)
+            for route, got in extra["steps"][i].items():
+                want = exp
+                if route == "keyword == token":
+                    want = "!ValueError" if exp == "!ValueError" else ("True" if exp != "nan" or name in ("bfloat", "bfloatle") else "True")
+                if got != want:
+                    return (f"{name}={x!r} ({f[4]}) via {route} under mxfp_overflow={m!r} (step {i + 1} of the history "
+                            f"{' -> '.join(hist)}, caches not cleared in between): expected {want}, got {got}")
+        return None
     if op == "senc":
         s, x = parse_scale(f[4]), hex2f(f[5])
         if s == 0:
@@ -788,6 +888,18 @@ def gen(rng, tier):
             hs = stratified_halves(name, rng, 100)
             for h in (hs if big else rng.sample(hs, 150)):
                 yield L("enc", name, mode, struct.pack(">d", half2f(h)).hex())
+    # ---- histories of mxfp_overflow settings through the token-string route (the string cache must not serve a code
+    #      computed under the other setting); both orders, every format (the mode-independent ones as controls)
+    hvals = [1e10, -1e10, math.inf, -math.inf, math.nan, 61440.0, 61439.99, 65520.0, -65520.0, 65504.0, 57344.0, 1000.0, -1000.0,
+             2000.0, -70000.0, 465.0, 464.0, 464.25, -479.0, 480.0, 448.0, 1e300, -1e300, 240.0, 232.5, 30.0, 7.75, 6.5,
+             1.5, -0.0, 0.1, 2.0 ** -20, 2.0 ** 127, 3e38]
+    for name in NAMES:
+        vals = list(hvals)
+        for _ in range(40 if big else (10 if name in TWO_MODE else 3)):
+            vals.append(rng.choice([1, -1]) * 2.0 ** rng.uniform(5, 20))
+        for x in vals:
+            for order in (("sos", "oso", "soos", "ooss") if (big or name in TWO_MODE) else ("sos", "oso")):
+                yield L("modeseq", name, order, struct.pack(">d", x).hex())
     # ---- scaled dtypes
     scales = list(SCALES_QUICK)
     for _ in range(12 if big else 3):
